@@ -36,8 +36,8 @@ use tokio::sync::Barrier;
 const PORT: u16 = 0xbeef;
 const PAUSED_SIM_MS: u64 = 14_000;
 const PAUSED_QUIET_MS: u64 = 4_000;
-const MULTI_SIM_MS: u64 = 450;
-const MULTI_QUIET_MS: u64 = 150;
+const MULTI_SIM_MS: u64 = 1500;
+const MULTI_QUIET_MS: u64 = 500;
 
 // ------------------------------------------------------------------ scenario
 
@@ -259,6 +259,12 @@ async fn do_send(app_id: TypeId, idx: usize, ip: u32, s: SendSpec, machine: Arc<
                 .unwrap();
                 let mut h = Ipv4Header::from_bytes(proto.iter().cloned()).unwrap();
                 h.time_to_live = s.ttl as u8;
+                // non-default values in the fields a router must carry over unchanged
+                h.identification = (0x1234 + 7 * s.k as u32 + s.len as u32) as u16;
+                h.type_of_service = ((((s.k % 8) as u8) << 5) | (((s.len % 8) as u8) << 2)).into();
+                if s.len % 2 == 1 {
+                    h.flags.set_may_fragment(false);
+                }
                 let hb = h.serialize().unwrap();
                 let mut msg = Message::new(body);
                 msg.header(hb);
@@ -323,6 +329,9 @@ fn child(case: &str) -> ! {
         println!("EV 0 panic {}", loc);
         let _ = std::io::stdout().flush();
         eprintln!("{}", info);
+        // run_internet's hook would now capture and print a backtrace (0.5 s of symbol resolution) and then
+        // call process::exit(1); do the same without the backtrace
+        std::process::exit(1);
     }));
     let out = block_on(flavor, async move {
         start_clock();
@@ -460,7 +469,37 @@ fn owner(scn: &Scn, net: usize, ip: u32) -> Option<String> {
     None
 }
 
+/// Finding: the ARP table is keyed by IP only and shared by all interfaces, so a router with a route that names
+/// the wrong slot sends the frame to whatever station has, on that network, the MAC number learnt elsewhere.
+/// Set to Some("class") once the finding is recorded in known_findings.json.
+const ARP_CLASS: Option<&str> = Some("c16-arp-table-shared-by-all-slots");
+const ARP_TAG: &str = "[arp-table-shared-by-all-slots]";
+
 fn oracle(scn: &Scn, frames: &[Frame], rxs: &[Rx], quiet: bool, stray: usize) -> Result<(), String> {
+    // first of all: nobody but the owner of the destination address may hand the datagram to an application
+    for x in rxs.iter() {
+        if let Some(d) = scn.dgrams.get(x.tag) {
+            if scn.hosts[x.host].ip != d.dst {
+                let via_arp = frames.iter().filter(|f| f.tag == x.tag).any(|f| {
+                    f.from.starts_with('R') && {
+                        let r = &scn.routers[f.from[1..].parse::<usize>().unwrap()];
+                        match lpm(&r.routes, d.dst) {
+                            Some(e) => owner(scn, f.net, if e.gw == 0 { d.dst } else { e.gw }).as_deref() != Some(f.to.as_str()),
+                            None => false,
+                        }
+                    }
+                });
+                return Err(format!(
+                    "{}datagram {} for {} was handed to the application of host {} ({}), which does not own that address",
+                    if via_arp { format!("{} ", ARP_TAG) } else { String::new() },
+                    x.tag,
+                    d.dst,
+                    x.host,
+                    scn.hosts[x.host].ip
+                ));
+            }
+        }
+    }
     if stray > 0 {
         return Err(format!("{} IPv4 frames / deliveries that belong to no datagram of the scenario", stray));
     }
@@ -517,7 +556,7 @@ fn oracle(scn: &Scn, frames: &[Frame], rxs: &[Rx], quiet: bool, stray: usize) ->
                         return Err(format!("datagram {}: R{} sent on net {} but its route names slot {}", k, ri, f.net, e.slot));
                     }
                     if owner(scn, f.net, nh).as_deref() != Some(f.to.as_str()) {
-                        return Err(format!("datagram {}: R{} sent to {} which does not own the next hop {}", k, ri, f.to, nh));
+                        return Err(format!("{} datagram {}: R{} sent to {} which does not own the next hop {}", ARP_TAG, k, ri, f.to, nh));
                     }
                 }
             }
@@ -715,7 +754,17 @@ impl Family for C16 {
         }
         let oracle = match oracle(&scn, &frames, &rxs, quiet, stray) {
             Ok(()) => Oracle::Ok,
-            Err(m) => Oracle::Fail(m),
+            Err(m) => {
+                if m.starts_with(ARP_TAG) {
+                    stat("finding_arp_table_shared");
+                    match ARP_CLASS {
+                        Some(c) => Oracle::Known(c.to_string(), m),
+                        None => Oracle::Fail(m),
+                    }
+                } else {
+                    Oracle::Fail(m)
+                }
+            }
         };
         Outcome { impl_line: line, oracle }
     }
@@ -1033,7 +1082,7 @@ fn gen_scn(rng: &mut Rng) -> Scn {
     }
     // a few runs on the multi-thread runtime (real time): only when nothing has to time out
     let mut flavor = 0;
-    if correct && delays.is_empty() && dgrams.iter().all(|d| d.expect && d.start_ms <= 30) && rng.coin(1, 6) {
+    if correct && delays.is_empty() && dgrams.iter().all(|d| d.expect && d.start_ms <= 30) && rng.coin(1, 2) {
         flavor = 2;
     }
     let routers: Vec<RouterC> = (0..nr)
